@@ -485,7 +485,7 @@ def sym_for(ex, ctx, st, s, view):
     if d == 0:
         ctx.assume(n >= 0)
         if not z3.is_true(cj):
-            ctx.assume(all_before(n))
+            ctx.constrain(all_before(n))
         pre_state(ctx, st, n)
         ctx.check_feasible()
         ex.exec_block(ctx, st, s.orelse)
@@ -493,11 +493,14 @@ def sym_for(ex, ctx, st, s, view):
     p = exits[d - 1]
     k = ctx.fresh("k", Int, tuple(st.idx))
     pairs = [(j, k)]
-    ctx.assume(z3.And(k >= 0, k < n))
+    ctx.constrain(z3.And(k >= 0, k < n))
     if not z3.is_true(cj):
-        ctx.assume(all_before(k))
-    for c in p.pc:
-        ctx.assume(z3.substitute(c, *pairs))
+        ctx.constrain(all_before(k))
+    for c, kd in zip(p.pc, p.kinds):
+        if kd == "A":
+            ctx.assume(z3.substitute(c, *pairs))
+        else:
+            ctx.constrain(z3.substitute(c, *pairs))
     ctx.check_feasible()
     # adopt the exit path's final state at index k
     ps = p.state
@@ -608,9 +611,12 @@ def exec_while(ex, ctx, st, s):
     p = exits[d]
     k = ctx.fresh("wk", Int, tuple(st.idx))
     pairs = [(j, k)]
-    ctx.assume(k >= 0)
-    for c in p.pc:
-        ctx.assume(z3.substitute(c, *pairs))
+    ctx.constrain(k >= 0)
+    for c, kd in zip(p.pc, p.kinds):
+        if kd == "A":
+            ctx.assume(z3.substitute(c, *pairs))
+        else:
+            ctx.constrain(z3.substitute(c, *pairs))
     ctx.check_feasible()
     ps = p.state
     subst_state(ps, pairs)
